@@ -33,7 +33,7 @@ PROPS = {
     },
     "C08": {
         "lean": ["Stackage.Props.C08", "Stackage.Props.C08b"],
-        "streams": [{"name": "histx", "quick": 3000, "thorough": 60000}, {"name": "awk", "quick": 2000, "thorough": 40000}],
+        "streams": [{"name": "equnit", "quick": 1500, "thorough": 30000}, {"name": "histx", "quick": 3000, "thorough": 60000}, {"name": "awk", "quick": 2000, "thorough": 40000}],
         "rule": "histories of the content mutators whose int arguments are drawn from {MinInt, MinInt+1, -Len-1..Len+1, MaxInt} on stacks of "
                 "length 0..4, all four index-option combinations, every kind; after each call Len/Index*/Front/Back/Cap/Avail are re-read; "
                 "non-trivial = at least 3 operations of at least 2 kinds; stream awk: Push / Insert / Replace / IsEqual / Transfer / ConvertStack / "
@@ -101,7 +101,7 @@ PROPS = {
     },
     "C12": {
         "lean": ["Stackage.Props.C12"],
-        "streams": [{"name": "alias", "quick": 3000, "thorough": 60000}],
+        "streams": [{"name": "condhist", "quick": 1500, "thorough": 30000}, {"name": "alias", "quick": 3000, "thorough": 60000}],
         "rule": "random trees (depth 1-2 quick, 1-4 thorough) in which every nested Stack and every Condition (also as a Condition's expression) is independently "
                 "native / alias / alias with its own String / non-nil pointer to alias; the alias tree and its all-native twin are both built with the real code and "
                 "observed: String, Unmarshal, IsNesting, Traverse over 9 paths, Condition.Len/IsNesting, no-nesting Push count, Transfer, IsEqual in both directions, "
@@ -168,7 +168,7 @@ PROPS = {
     },
     "C16": {
         "lean": ["Stackage.Props.C16"],
-        "streams": [{"name": "anytrees", "quick": 4000, "thorough": 80000}],
+        "streams": [{"name": "closures", "quick": 1500, "thorough": 30000}, {"name": "anytrees", "quick": 4000, "thorough": 80000}],
         "rule": "random []any trees (depth <= 3 quick / 5 thorough): labels in any case (incl. dotless-i / long-s spellings), junk and empty strings, numbers, nil, typed nil, "
                 "operators (valid, ComparisonOperator(0), user-defined, empty text, nil), ready-made Stacks / aliases / Conditions, zero-valued instances, funcs, maps, "
                 "CONDITION rows with 0-6 fields and wrong types, empty and nested single-element envelopes; receivers: zero Stack, initialised Stack, initialised Stack "
@@ -400,6 +400,21 @@ def projection(pid, stream):
         return lambda s: s
     if pid == "C13" and stream == "condhist":
         return _c13_cond
+    if pid == "C12" and stream == "condhist":
+        # alias / pointer forms as a Condition's expression behave like the native one: what is stored, CanNest, IsNesting
+        return _c13_cond
+    if pid == "C08" and stream == "equnit":
+        # any Go value as comparand: the call returns normally (the verdict itself is C05's business)
+        return lambda s: "PANIC" if "PANIC" in s else "returned"
+    if pid == "C16" and stream == "closures":
+        # Marshal into an initialised receiver with closures installed / removed: the verdict of each marshal step and the length
+        def _c16_cl(s):
+            out = []
+            for st in s.split(" ; "):
+                t = st.split(" ")
+                out.append(t[0] + " " + " ".join(x for x in t if x[:1] == "L" and x[1:].isdigit()))
+            return " ; ".join(out)
+        return _c16_cl
     if pid == "C14" and stream == "closures":
         return lambda s: s
     if pid == "C09" and stream == "xferro":
